@@ -46,7 +46,7 @@ structure LPState (σ : Type) where
 
 /-- scan a *reversed* prefix for the first (i.e. highest-index) entry satisfying `p`;
 returns its index + 1, or 0 when there is none -/
-def scanBack (p : Entry → Bool) : List Entry → Nat
+def scanBack {α : Type} (p : α → Bool) : List α → Nat
   | [] => 0
   | x :: xs => if p x then xs.length + 1 else scanBack p xs
 
@@ -68,12 +68,8 @@ def matchAnti (hist : List Entry) (m : Nat) : Option Nat :=
 
 /-- `model_allocator_checkpoint_restore`'s log search: index of the newest log with `ref ≤ target` -/
 def findLog (logs : List (Nat × σ)) (target : Nat) : Option Nat :=
-  let k := scanBack' logs.reverse
+  let k := scanBack (fun (x : Nat × σ) => decide (x.1 ≤ target)) logs.reverse
   if k = 0 then none else some (k - 1)
-where
-  scanBack' : List (Nat × σ) → Nat
-    | [] => 0
-    | x :: xs => if x.1 ≤ target then xs.length + 1 else scanBack' xs
 
 /-- the past messages of a history segment, in order -/
 def pastMsgs (h : List Entry) : List Nat :=
